@@ -331,6 +331,19 @@ pub fn c06(ctx: &mut Ctx) {
         let inst = build_instance(&mut rng, shape.clone(), coeffs, None, queries.clone());
         ctx.stats.messages_delivered += (inst.call.roots.len() + inst.call.last_layer.len() + inst.call.values.len() + inst.call.layers.iter().map(|(l, a)| l.len() + a.len()).sum::<usize>()) as u64;
         let sc = shape_class(&shape, queries.len());
+        // the configuration itself must be accepted by the real validation (every valid FRI
+        // configuration: 2..15 layers, steps 1..4, last bound 0..15)
+        {
+            let blow = shape.log_input - shape.log_degree_bound();
+            let cfg = inst.call.config.clone();
+            let vo = monitor::guarded(1_000_000, || cfg.validate(Felt::from(blow as u64), Felt::from(shape.n_friendly))).outcome;
+            ctx.stats.evaluations += 1;
+            if !vo.is_accept() {
+                let rep = replay_envelope("C06", scenario, &ctx.variant, json!({"call": "fri_verify", "args": inst.call.to_json(), "digest": hexf(&inst.digest), "expect": "config-valid", "expected_outcome": vo.describe()}));
+                ctx.violation(&format!("C06|valid-config-rejected|{}", vo.class()), &format!("fri::Config::validate rejects a valid configuration: {} shape {}", vo.describe(), shape_class(&shape, queries.len())), rep);
+                continue;
+            }
+        }
         // commit phase on the real transcript
         let (co, pts) = real_commit(&inst);
         ctx.stats.evaluations += 1;
@@ -682,6 +695,13 @@ pub fn replay(rep: &Value) -> Result<(bool, String), String> {
     let violated = match rep["expect"].as_str() {
         Some("not_ok") => o.is_accept(),
         Some("ok") => !o.is_accept(),
+        Some("config-valid") => {
+            let cfg = call.config.clone();
+            let blow = cfg.log_input_size - cfg.fri_step_sizes.iter().fold(Felt::ZERO, |a, b| a + b) - cfg.log_last_layer_degree_bound;
+            let nvf = cfg.inner_layers.first().map(|l| l.vector.n_verifier_friendly_commitment_layers).unwrap_or(Felt::ZERO);
+            let vo = monitor::guarded(1_000_000, || cfg.validate(blow, nvf)).outcome;
+            return Ok((!vo.is_accept(), vo.describe()));
+        }
         Some("fold-identity") | Some("commit-points") | Some("commit-ok") => {
             // informational replays: re-run verify only
             !o.is_accept()
